@@ -9,7 +9,7 @@ NOTE = ("Trusted: Coq 8.16.1 kernel and vm_compute; axioms as listed per theorem
 T = {
  "C01": ("Theorems: Minimum/Maximum return an element of exactly the last min(t,n) inputs with no smaller/greater element in that window, for every period, every cursor position and every strict total order with top (C01_min_least, C01_max_greatest), instantiated bit-exactly for binary64 without NaN/-0.0 (C01_float_order via Flocq, C01_min_least_binary64, C01_max_greatest_binary64); over the exact carrier (extended reals) SMA, WMA, SD, MAD, BB equal mean / weighted mean / population variance / mean absolute deviation / mean +- m*sd of the last min(t,n) inputs for every stream; the exact-rational oracle of the tolerance check is proved to be the image of that exact real run (C01_t2_oracle, by parametricity of the interpreter). The rounding part (tau) is PROVED for SimpleMovingAverage on binary64 (C01_sma_binary64_within_tau: forward error analysis through Flocq, every period < 2^53, up to 2^49 inputs, no-overflow hypothesis explicit) and validated by T2 on generated streams for the others: partial; refuted for WMA (K7) and at overflow scale (K8).",
          "Rocq proofs (ring-buffer rotation invariant, induction over streams; exact-arithmetic refinement; Flocq order instance; Paramcoq abstraction theorem) + bit-exact correspondence + exact-rational tolerance check"),
- "C02": ("Theorems for every number type (bit-exact for binary64): EMA returns its first input and then k*x+(1-k)*prev with k=2/(n+1); TrueRange scalar and bar definitions; ATR = EMA(TR), MACD, KC, CE equal the hand wiring of standalone streams for every period combination. Over exact reals the model's EMA, ATR, MACD and KeltnerChannel streams are the real recursions (C02_ema_exact, closed form C02_ema_closed_form, C02_atr_exact, C02_macd_exact, C02_kc_exact). Agreement of the float recursion with exact evaluation within tau(t): PROVED for ExponentialMovingAverage on binary64 (C02_ema_binary64_within_tau: forward error analysis through Flocq including the rounding of alpha; periods < 2^53, up to 2^45 inputs, explicit magnitude bounds) and for AverageTrueRange on scalars (C02_atr_binary64_within_tau, by composition); for MACD/KC/CE and the bar paths validated by T2 against the exact-rational instance, proved to be the image of the exact real run (partial).",
+ "C02": ("Theorems for every number type (bit-exact for binary64): EMA returns its first input and then k*x+(1-k)*prev with k=2/(n+1); TrueRange scalar and bar definitions; ATR = EMA(TR), MACD, KC, CE equal the hand wiring of standalone streams for every period combination. Over exact reals the model's EMA, ATR, MACD and KeltnerChannel streams are the real recursions (C02_ema_exact, closed form C02_ema_closed_form, C02_atr_exact, C02_macd_exact, C02_kc_exact). Agreement of the float recursion with exact evaluation within tau(t): PROVED for ExponentialMovingAverage on binary64 (C02_ema_binary64_within_tau: forward error analysis through Flocq including the rounding of alpha; periods < 2^53, up to 2^45 inputs, explicit magnitude bounds) and for AverageTrueRange on scalars (C02_atr_binary64_within_tau, by composition), and for MACD line, signal and histogram on streams of any length (C02_macd_binary64_error: three saturating EMA bounds, two rounded subtractions, 1-Lipschitz signal; periods < 2^45); for KC/CE and the bar paths validated by T2 against the exact-rational instance, proved to be the image of the exact real run (partial).",
          "Rocq proofs (stream induction, any carrier) + bit-exact correspondence + exact-rational tolerance check"),
  "C10": ("Theorems for every number type: Next<&T> of the 11 close-only indicators equals Next<f64> on close (Minimum: low, Maximum: high) as an equation of state and output; bars agreeing on the documented read-set are indistinguishable; open is never read; DataItem = any other implementor. One-price bars: FastStochastic / SlowStochastic take exactly the scalar step for every carrier with symmetric == (proved for binary64 from the float axioms, so bit-exact for every float incl. NaN); TrueRange and ATR also bit-exactly on binary64 for every finite price (C10_tr_one_price_binary64, C10_atr_one_price_binary64); KeltnerChannel over exact reals ((x+x+x)/3 = x), on binary64 checked on the implementation (relational) - partial on that component.",
          "Rocq proofs (definitional equalities over 22 kinds; float == symmetry; exact-carrier one-price steps) + bit-exact correspondence + relational checks on the implementation"),
